@@ -186,6 +186,11 @@ Definition pread (f : file) (len : N) (pos : Z) : res chunk :=
   else if (OFF_MAX - pos <? Z.of_N (len - 1))%Z then Err KSYSTEM StNone
   else Ok {| cfile := f; cpos := Z.to_N pos; clen := len |}.
 
+(** [check_file_extent] (util.c, fixes 78, 79, 92) for a file that is not
+    flattened: [size] bytes at [off] lie within the [flen] bytes of the file *)
+Definition extent_ok (flen : N) (off : Z) (size : N) : bool :=
+  ((0 <=? off) && (off <=? Z.of_N flen))%Z && (size <=? flen - Z.to_N off).
+
 (** ** Bounded loops
 
     [body s] either continues with a new state or stops with a result.
